@@ -865,6 +865,14 @@ def symbolic_slot_hook(E, lst, j):
 
 
 SLOT_HOOKS = []
+SLOT_STORE_HOOKS = []
+
+
+def symbolic_slot_store_hook(E, lst, j, val):
+    for h in SLOT_STORE_HOOKS:
+        if h(E, lst, j, val):
+            return True
+    return False
 
 
 def contains_hook(E, cont, x):
